@@ -94,6 +94,41 @@ InRange(x, t) ==
 FloatP(w)  == IF w = 8 THEN 53 ELSE 24
 FloatEB(w) == IF w = 8 THEN 11 ELSE 8
 
+(* roots: n arrives as a magnitude (it may be u32::MAX) *)
+MagEven(m) == m = <<>> \/ (m[1] % 2) = 0
+FailsRoot(x, nm) == nm = <<>> \/ (x.s < 0 /\ MagEven(nm))
+IsFloorRoot(xm, n, rm) ==
+    /\ BitLen(rm) <= (BitLen(xm) \div n) + 1                    \* keeps the powers below small (a wrong huge r is rejected here)
+    /\ Cmp(Pow(rm, n), xm) <= 0
+    /\ Cmp(Pow(AddSmall(rm, 1), n), xm) > 0
+\* r is the n-th root of x truncated toward zero
+RootR(x, nm, r) ==
+    IF x.s = 0 THEN r.s = 0
+    ELSE IF ~SmallMag(nm) \/ Val(nm) >= BitLen(x.d) THEN r.s = x.s /\ r.d = <<1>>      \* 1 <= |x| < 2^n
+    ELSE r.s = x.s /\ IsFloorRoot(x.d, Val(nm), r.d)
+
+(* powers with an exponent register: computable exponents, or base 0 / +-1 for astronomically large ones *)
+PowBigR(x, e) ==
+    IF Len(e.d) <= 2 THEN ZPow(x, Val(e.d))
+    ELSE IF x.s = 0 THEN ZZero
+    ELSE IF x.s > 0 THEN ZOne
+    ELSE (IF MagEven(e.d) THEN ZOne ELSE ZInt(-1))
+PowBigDefined(x, e) == Len(e.d) <= 2 \/ x.s = 0 \/ x.d = <<1>>
+
+(* gcd certificates: g >= 0 divides both, and is a linear combination of both *)
+GcdCert(a, b, h) ==
+    /\ h.g.s >= 0
+    /\ ZEq(a, ZMul(h.g, h.ca)) /\ ZEq(b, ZMul(h.g, h.cb))
+    /\ ZEq(ZAdd(ZMul(a, h.x), ZMul(b, h.y)), h.g)
+IsLcm(a, b, g, l) == IF a.s = 0 \/ b.s = 0 THEN l.s = 0
+                     ELSE l.s > 0 /\ ZEq(ZMul(l, g), ZAbs(ZMul(a, b)))
+\* res is the multiple k*b of b next to a in the direction of b's sign (or a itself)
+IsNextMultiple(a, b, res, k) == LET d == ZSub(res, a) IN
+    ZEq(res, ZMul(k, b)) /\ (d.s = 0 \/ (d.s = b.s /\ Cmp(d.d, b.d) < 0))
+IsPrevMultiple(a, b, res, k) == LET d == ZSub(a, res) IN
+    ZEq(res, ZMul(k, b)) /\ (d.s = 0 \/ (d.s = b.s /\ Cmp(d.d, b.d) < 0))
+AbsSubR(a, b) == IF ZCmp(a, b) > 0 THEN ZSub(a, b) ELSE ZZero
+
 (* radix ranges *)
 FailsTextRadix(radix)  == radix < 2 \/ radix > 36
 FailsDigitRadix(radix) == radix < 2 \/ radix > 256
